@@ -58,10 +58,13 @@ Theorem C04_preprocess_scalar_positions : forall s t o c,
 Proof. exact preprocess_scalar_positions. Qed.
 Print Assumptions C04_preprocess_scalar_positions.
 
+(* third audit: `o` is pinned - the opener is the one that is not inside a comment ([ends_in_code a]: the text
+   before it is code, closed comments and finished line comments), and such an opener is unique, so `/* /* x`
+   admits o = 0 only (C05_unclosed_opener_unique, Example C05_nested_opener_pinned) *)
 Theorem C04_unclosed_comment_location_is_byte_offset_of_opener : forall s o,
-  preprocess s = Err (unclosed o) ->
-  exists a c, s = a ++ [47%N; 42%N] ++ c /\ o = text_bytes a /\ no_close c.
-Proof. exact unclosed_comment_location_is_byte_offset_of_opener. Qed.
+  preprocess s = Err (unclosed o) <->
+  exists a c, s = a ++ [47%N; 42%N] ++ c /\ ends_in_code a /\ no_close c /\ o = text_bytes a.
+Proof. exact unclosed_comment_at_first_unclosed_opener. Qed.
 Print Assumptions C04_unclosed_comment_location_is_byte_offset_of_opener.
 
 Theorem C04_unclosed_comment_range_valid : forall s o,
